@@ -20,7 +20,7 @@ def run(tier, seed):
     perms = list(itertools.permutations(range(5)))
     extras = [[], [["Station", 0, "str"]], [["Wind", 99, "num"]], [["Station", 2, "str"], ["Wind", 4, "num"]],
               [["SnowDepth", 99, "nan"]], [["Flag", 1, "none"], ["SnowDepth", 3, "nan"]]]
-    indexes = ["range", "shifted", "datetime", "labels"]
+    indexes = ["range", "shifted", "datetime", "labels", "datetime_shifted", "datetime_noon", "datetime_other"]
     pads = [{}, {"pad_before": 37}, {"pad_before": 400, "pad_after": 200}]
     space = [(p, e, i, d) for p in perms for e in extras for i in indexes for d in pads]
     jobs, pairs = [], []
@@ -37,7 +37,7 @@ def run(tier, seed):
             pairs.append({"a": a, "b": len(jobs) - 1, "rule": "identity", "scenario": b,
                           "label": {"crop": sc["crop"]["name"], "perm": list(p), "extra": [x[0] for x in e], "index": i, "pad": d}})
     if tier == "thorough":
-        add(fast, space)                                   # all 120 x 4 x 4 x 3 = 5760 on the short window
+        add(fast, space)                                   # all 120 x 6 x 7 x 3 = 15120 on the short window
         for sc in fulls:
             add(sc, rnd.sample(space, 40))
     else:
@@ -48,6 +48,9 @@ def run(tier, seed):
         add(fast, combos)
         for sc in fulls[:2]:
             add(sc, rnd.sample(space, 4))
+        # thermal-time crops read the temperatures a second time (crop calendar): a date-like index that is not the Date column
+        for sc in fulls[1:3]:
+            add(sc, [(perms[0], extras[0], "datetime_shifted", pads[0]), (perms[3], extras[2], "datetime_noon", pads[1]), (perms[0], extras[0], "datetime_other", pads[0])])
     return equivbase.equiv_check(PROP, tier, seed, jobs, pairs, level="exploration",
                                  rule_text="C15: weather-table transformations (column permutation x extra columns x index kind x extra rows outside the window) "
                                            "vs the canonical table, rule identity", extra={"transformation_space": len(space), "exhaustive": tier == "thorough"})
